@@ -77,4 +77,17 @@ def gfsc : Spec :=
     init := [(EDict.subConst (EDict.sub [(EKey.f 1, 1)] [(EKey.f 0, 1)]) 1, true)],
     metrics := [PDict.ip [(2, 1)] (PDict.neg [(2, 1)])] }
 
+/-- `potential_functions.gradient_descent_lyapunov_1`: `x⋆ ↦ 0` (value leaf 0), `x_n ↦ 1`, `oracle(x_n)` creates `g_n ↦ 2` and
+`f_n` (value leaf 1), `x_{n+1} = x_n − γ g_n`, `oracle(x_{n+1})` creates `g_{n+1} ↦ 3` and `f_{n+1}` (value leaf 2); no initial
+condition; the metric is `V_{n+1} − V_n` with `V_k = k (f_k − f⋆) + L/2 ‖x_k − x⋆‖²` -/
+def gdlNext (γ : Coef) : PDict := stepPt [(1, 1)] γ 2
+def gdlV (L : Coef) (k : Nat) (fk : Nat) (x : PDict) : EDict :=
+  EDict.add (EDict.smul (k : Coef) (EDict.sub [(EKey.f fk, 1)] [(EKey.f 0, 1)])) (EDict.smul (L / 2) (PDict.sq (PDict.sub x [(0, 1)])))
+def gdlMetric (L γ : Coef) (n : Nat) : EDict := EDict.sub (gdlV L (n + 1) 2 (gdlNext γ)) (gdlV L n 1 [(1, 1)])
+
+def gdl1 (L γ : Coef) (n : Nat) : Spec :=
+  { samples := [([(0, 1)], [], [(EKey.f 0, 1)]), ([(1, 1)], [(2, 1)], [(EKey.f 1, 1)]), (gdlNext γ, [(3, 1)], [(EKey.f 2, 1)])],
+    init := [],
+    metrics := [gdlMetric L γ n] }
+
 end Pepit.Method
